@@ -349,7 +349,9 @@ fn l_tvfs(v: &TvfsFile, _: &[&[u8]]) -> String {
 }
 fn l_pa(v: &PatchArchive, _: &[&[u8]]) -> String {
     let h = &v.header;
-    let fe: Vec<_> = v.all_file_entries().collect();
+    // the serialiser sorts the file entries by target key: the entries are a multiset
+    let mut fe: Vec<String> = v.all_file_entries().map(|e| format!("{e:?}")).collect();
+    fe.sort();
     // documented flag bits only (0: plain data, 1: extended header); key widths are layout
     format!("v{} bb{} fl{}|{:?}|{:?}", h.version, h.block_size_bits, h.flags & 3, v.encoding_info, fe)
 }
@@ -405,7 +407,20 @@ casc_fmt!(f_root, RootFile, l_root);
 casc_fmt!(f_install, InstallManifest, l_install);
 casc_fmt!(f_download, DownloadManifest, l_download);
 casc_fmt!(f_size, SizeManifest, l_size);
-casc_fmt!(f_tvfs, TvfsFile, l_tvfs);
+mod f_tvfs {
+    use super::*;
+    pub fn parse(b: &[u8], _: &Env) -> Result<Val, String> {
+        <TvfsFile as CascFormat>::parse(b).map(|v| Box::new(v) as Val).map_err(|e| e.to_string())
+    }
+    pub fn rt(v: Val, b: &[u8], _: &Env) -> Value {
+        let v = *v.downcast::<TvfsFile>().expect("value type");
+        // does the accepted file contain references that resolve to nothing (path -> VFS entry -> container entry)?
+        let dangling = guarded(|| l_tvfs(&v, &[])).map(|s| s.contains("nocft") || s.contains("novfs")).unwrap_or(true);
+        let mut o = rt_run::<TvfsFile>(v, b, &|x| <TvfsFile as CascFormat>::parse(x).map_err(|e| e.to_string()), &|v| <TvfsFile as CascFormat>::build(v).map_err(|e| e.to_string()), &l_tvfs);
+        o["dang"] = json!(dangling);
+        o
+    }
+}
 casc_fmt!(f_pa, PatchArchive, l_pa);
 casc_fmt!(f_pi, PatchIndex, l_pi);
 casc_fmt!(f_zbs, ZbsDiff, l_zbs);
@@ -2544,7 +2559,7 @@ fn events_of(job: &Job, ex: &Exec, rerun: bool, first: Option<&Value>, st: &mut 
         match (&ex.r, &ex.death) {
             (Some(r), _) => {
                 e.insert("o".into(), json!("done"));
-                copy_keys(&mut e, r, &["b2", "l1", "p2", "l2", "b3", "l1_text", "l2_text", "hm"]);
+                copy_keys(&mut e, r, &["b2", "l1", "p2", "l2", "b3", "l1_text", "l2_text", "hm", "dang"]);
             }
             (None, Some((d, _))) => {
                 e.insert("o".into(), d["kind"].clone());
